@@ -21,7 +21,8 @@ RULE = ("Kruskal tensors of order 1..4 (mode sizes 1..4, singleton modes) and ra
         "of the one-more / one-fewer switch, exact floating point for the {0, +-1} patterns), references of another shape "
         "or with more components, each followed by a second call (alignment normal form, parity, idempotence); "
         "normalize() twice for each norm; arrange by p then q against arrange by p[q]; redistribute into every mode; "
-        "extract with valid subsets, duplicates and invalid index lists; tovec/from_vector/update/tolist; + - neg * ; "
+        "extract with valid subsets, duplicates and invalid index lists; tovec/from_vector/update/tolist (the parameter vector "
+        "handed to from_vector as 1-d / n x 1 / 1 x n with both weight flags, and as a non-vector); + - neg * ; "
         "score against permuted / perturbed copies, exact copies (tied congruences), unit-vector / 3-4-5 / zero columns "
         "and zero weights for every rank pair RB<=RA<=4 and orders 2..4, greedy=False, thresholds outside [0,1], other "
         "shapes (returns exactly on the valid requests; score = mean of the matched congruences; greedy matching); "
